@@ -1,0 +1,5 @@
+//go:build !verif
+
+package pow
+
+func verifHook(string, uint64) {}
